@@ -9,7 +9,7 @@ use serde_json::{json, Value};
 pub fn cfg_for(t: Tier, exact: bool) -> GenCfg {
     use Kind::*;
     let mut cfg = GenCfg::programs(exact);
-    cfg.kinds = vec![(Binary, 22), (Backward, 14), (Unary, 10), (ReadGrad, 9), (Update, 9), (CloneH, 8), (Leaf, 7), (SumReshape, 8), (Matmul, 5), (Rebind, 4), (DropH, 4), (ClearGrad, 3), (Custom, 3), (Flag, 3), (Conv, 2), (IfGt, 2), (Retrack, 4)];
+    cfg.kinds = vec![(Binary, 22), (Backward, 14), (Unary, 10), (ReadGrad, 9), (Update, 9), (CloneH, 8), (Leaf, 7), (SumReshape, 8), (Matmul, 5), (Rebind, 4), (DropH, 4), (ClearGrad, 3), (Custom, 3), (Flag, 3), (Conv, 2), (IfGt, 2), (Retrack, 4), (Refused, 2)];
     cfg.max_steps = t.pick(25, 120);
     cfg.max_elems = t.pick(32, 100);
     cfg.flag_results = true;
